@@ -200,6 +200,41 @@ func runC10(c *Ctx) {
 	for _, cl := range colls {
 		n := len(cl.items)
 		c.Count(fmt.Sprintf("coll-size:%d", min2(n, 9)))
+		// select() is the concatenation of the projections of the items — content and order, also when the
+		// projection hands back (parts of) a longer-lived collection; and the collection itself is left as supplied
+		if n >= 1 && n <= 10 {
+			before := append(system.Collection{}, cl.items...)
+			for _, proj := range []string{"%c.take(1)", "%c.skip(1).take(2)", "iif($this = %c.first(), %c.take(1), %c.skip(2))", "%c.tail()", "iif($index = 0, %c.take(2), {})", "$this", "%c.last()", "%c.where($this = %c.first())"} {
+				whole := evalOn("select("+proj+")", cl)
+				var want system.Collection
+				okItems := whole.Err == nil && !whole.Panicked
+				for i := 0; okItems && i < n; i++ {
+					p := strings.ReplaceAll(proj, "$index", fmt.Sprint(i))
+					one := evalOn(fmt.Sprintf("skip(%d).take(1).select(%s)", i, p), cl)
+					if one.Err != nil || one.Panicked {
+						okItems = false
+						break
+					}
+					want = append(want, one.Coll...)
+				}
+				if okItems {
+					same := len(want) == len(whole.Coll)
+					for i := 0; same && i < len(want); i++ {
+						same = sameItem(want[i], whole.Coll[i]) || fmt.Sprintf("%T|%v", want[i], want[i]) == fmt.Sprintf("%T|%v", whole.Coll[i], whole.Coll[i])
+					}
+					c.Law(same, "C10/select-spec", "select() is the concatenation, in order, of the projections of the items", fmt.Sprintf("%s = %v .select(%s)", cl.desc, before, proj), fmt.Sprintf("%v want %v", whole.Coll, want))
+					c.Count("select-content")
+				}
+				unchanged := len(cl.items) == len(before)
+				for i := 0; unchanged && i < len(before); i++ {
+					unchanged = sameItem(before[i], cl.items[i]) || fmt.Sprintf("%T|%v", before[i], before[i]) == fmt.Sprintf("%T|%v", cl.items[i], cl.items[i])
+				}
+				c.Law(unchanged, "C10/input-modified", "collection functions leave the collection they are applied to as supplied", fmt.Sprintf("%s .select(%s)", cl.desc, proj), fmt.Sprintf("%v was %v", cl.items, before))
+				if !unchanged {
+					copy(cl.items, before)
+				}
+			}
+		}
 		// --- criteria
 		for _, cr := range cc {
 			outs := make([]string, n)
